@@ -1,19 +1,8 @@
 #!/bin/bash
-# tools/check_seeded.sh [id-glob]  -- run every kept seeded change against the quick check of its property;
-# prints one line per change: CAUGHT (check exited 1 with a VIOLATION line) or MISSED.
+# tools/check_seeded.sh [id-glob] [parallel jobs, default 1]  -- run every kept seeded change against the quick check of
+# its property (or the checks named in its meta.json `caught_by_checks`); one line per change: CAUGHT (a check exited 1
+# with a VIOLATION line) or MISSED; a summary line at the end.
 cd /verif
-n=0; missed=0
-for d in seeded/${1:-*}/; do
-  id=$(basename "$d")
-  prop=$(/venv/bin/python -c "import json;print(json.load(open('$d/meta.json'))['property'])")
-  # the check(s) expected to catch it: the property's own, unless meta.json names others (cross-property catches)
-  checks=$(/venv/bin/python -c "import json;m=json.load(open('$d/meta.json'));print(' '.join(m.get('caught_by_checks') or [m['property']]))")
-  res=$(tools/try_mutant.sh "$d/patch.diff" $checks 2>&1)
-  if echo "$res" | grep -q "exit=1 :: [1-9]"; then
-    echo "CAUGHT $id ($prop): $(echo "$res" | grep "^C[0-9][0-9]\." | head -1 | cut -c1-140)"
-  else
-    echo "MISSED $id ($prop): $(echo "$res" | grep -v WARNING | head -3 | tr '\n' ' ' | cut -c1-200)"; missed=$((missed+1))
-  fi
-  n=$((n+1))
-done
-echo "seeded changes: $n, missed: $missed"
+out=$(ls -d seeded/${1:-*}/ | xargs -n1 basename | xargs -P "${2:-1}" -n1 tools/check_seeded_one.sh)
+echo "$out" | sort
+echo "seeded changes: $(echo "$out" | grep -c '^[CM]'), missed: $(echo "$out" | grep -c '^MISSED')"
